@@ -289,13 +289,39 @@ def probe_eq_source(e, consts):
     return '\n'.join(out) + '\n'
 
 
-def probe_step_source(st):
-    d = sorted(st['d'])
-    args = ''.join(', d_%s' % n for n in d)
-    body = ['        d_%s[d_idx] += dt' % n for n in d] or ['        pass']
-    return '\n'.join(['class %s(IntegratorStep):' % st['name'],
-                      '    def stage1(self, d_idx%s, dt):' % args] + body) \
-        + '\n'
+def probe_step_source(st, consts):
+    """A probe IntegratorStep subclass: one method per entry of `meths`
+    (initialize, stage1, stage2, ...) with the d names of that method."""
+    out = ['class %s(IntegratorStep):' % st['name']]
+    for me in st.get('meths') or [dict(m='stage1', d=st['d'])]:
+        d = sorted(me['d'])
+        args = ''.join(', d_%s' % n for n in d)
+        out.append('    def %s(self, d_idx%s, dt):' % (me['m'], args))
+        out += ['        d_%s[0] += dt' % n if n in consts else
+                '        d_%s[d_idx] += dt' % n for n in d] or ['        pass']
+    return '\n'.join(out) + '\n'
+
+
+def probe_integrator_source(steppers):
+    """An Integrator whose one_timestep calls every stage that some stepper
+    has (initialize first), the way the shipped integrators do."""
+    meths = set()
+    for st in steppers.values():
+        meths.update(m for m in dir(st)
+                     if m == 'initialize' or re.match(r'stage\d+$', m))
+    out = ['class ProbeIntegrator(Integrator):',
+           '    def one_timestep(self, t, dt):']
+    if 'initialize' in meths:
+        out.append('        self.initialize()')
+    stages = sorted(int(m[5:]) for m in meths if m != 'initialize')
+    for k in stages:
+        out += ['        self.compute_accelerations()',
+                '        self.stage%d()' % k,
+                '        self.update_domain()',
+                '        self.do_post_stage(dt, %d)' % k]
+    if not stages:
+        out.append('        self.compute_accelerations()')
+    return '\n'.join(out) + '\n'
 
 
 def make_eq(cls, dest, sources, kw):
@@ -316,6 +342,7 @@ def build_objects(case, workdir):
     for a in case['arrays']:
         consts.update(a.get('consts', ()))
     src = ['from pysph.sph.equation import Equation',
+           'from pysph.sph.integrator import Integrator',
            'from pysph.sph.integrator_step import IntegratorStep', '']
     seen = set()
     for e in case['eqs']:
@@ -325,17 +352,20 @@ def build_objects(case, workdir):
     for st in case['steppers']:
         if 'cls' not in st and st['name'] not in seen:
             seen.add(st['name'])
-            src.append(probe_step_source(st))
-    mod = None
-    if seen:
-        name = 'c20probe_%d' % os.getpid()
-        path = os.path.join(workdir, name + '.py')
+            src.append(probe_step_source(st, consts))
+    name = 'c20probe_%d_%d' % (os.getpid(), build_objects.n)
+    build_objects.n += 1
+    path = os.path.join(workdir, name + '.py')
+
+    def load(text):
         with open(path, 'w') as fp:
-            fp.write('\n'.join(src))
+            fp.write(text)
         spec = importlib.util.spec_from_file_location(name, path)
         mod = importlib.util.module_from_spec(spec)
         sys.modules[name] = mod
         spec.loader.exec_module(mod)
+        return mod
+    mod = load('\n'.join(src)) if seen else None
     eqs = []
     for e in case['eqs']:
         sources = list(e['sources']) or None
@@ -350,7 +380,18 @@ def build_objects(case, workdir):
         cls = load_class(st['cls']) if 'cls' in st else getattr(mod,
                                                                 st['name'])
         steppers[st['array']] = cls()
-    return eqs, steppers
+    icls = None
+    if steppers:
+        # (the module is written again, now with the integrator that calls
+        # the stages these steppers have; the classes keep their source)
+        src.append(probe_integrator_source(steppers))
+        name = name + 'i'
+        path = os.path.join(workdir, name + '.py')
+        icls = load('\n'.join(src)).ProbeIntegrator
+    return eqs, steppers, icls
+
+
+build_objects.n = 0
 
 
 def wrap(eqs, structure):
@@ -384,8 +425,12 @@ def codegen(compiler):
 
 
 def tokens_of(msg):
-    return sorted(set(re.findall(r'(?<![A-Za-z0-9_])[A-Za-z_][A-Za-z0-9_]*',
-                                 msg)))
+    """The identifiers occurring in the message; for an argument name d_x /
+    s_x also x (an error that speaks of 'd_ae' names ae)."""
+    toks = set(re.findall(r'(?<![A-Za-z0-9_])[A-Za-z_][A-Za-z0-9_]*', msg))
+    toks.update(t[2:] for t in list(toks)
+                if t[:2] in ('d_', 's_') and len(t) > 2)
+    return sorted(toks)
 
 
 def rejected(stage, ex):
